@@ -9,7 +9,6 @@ package server
 import (
 	"encoding/json"
 	"fmt"
-	"io"
 	"os"
 	"path/filepath"
 	stdruntime "runtime"
@@ -136,7 +135,7 @@ func TestVerif(t *testing.T) {
 	if job.NShards == 0 {
 		job.NShards = 1
 	}
-	log.SetOutput(io.Discard)
+	log.SetOutput(vsched.LogTail)
 	debug.SetGCPercent(400)
 	res := &Result{Check: job.Check, Shard: job.Shard, Exhaustive: true,
 		distinct: map[uint64]struct{}{}, outcomes: map[uint64]struct{}{}, vseen: map[string]bool{},
